@@ -89,6 +89,13 @@ func (d Doc) XML() string {
 	}
 	for _, e := range d {
 		switch e.Kind {
+		case 'b':
+			// document metadata (as written by the OSM API, JOSM and Overpass): not an element
+			if e.ID%2 == 1 {
+				b.WriteString(`<bounds minlat="-1" minlon="-1" maxlat="1" maxlon="1"/>` + "\n")
+			} else {
+				b.WriteString(`<note>an extract</note>` + "\n")
+			}
 		case 'n':
 			lat, lon := outsideCoord(e.ID), outsideCoord(e.ID)
 			if e.Inside {
@@ -220,6 +227,9 @@ func lfp(d Doc, keep int) map[string]bool {
 			}
 		}
 		for _, e := range d {
+			if e.Kind == 'b' {
+				continue // metadata is no element
+			}
 			if !s[e.key()] && (sel(e) || needed[e.key()]) {
 				s[e.key()] = true
 				changed = true
@@ -519,6 +529,38 @@ func scenarios(tier string) []Scenario {
 				Scenario{kd, nest, keepTags, 1, 0, 1, false}, Scenario{kd, nestBack, keepTags, 1, 0, 1, false})
 		}
 		out = append(out, Scenario{"extract", road, keepBounds, 2, 0, 1, true}, Scenario{"extract", nest, keepTags, 2, 0, 1, true})
+	}
+	// documents with metadata (<bounds>, <note>) at the top, between the elements
+	// and just before the last element; one and two workers
+	{
+		meta := func(id int64) Elem { return Elem{Kind: 'b', ID: id} }
+		for _, d := range []Doc{
+			{meta(1), n(1, true), n(2, false), w(1, 1, 2)},
+			{n(1, true), n(2, false), meta(1), w(1, 1, 2)},
+			{meta(1), meta(2), n(1, true), meta(3), w(1, 1, 2), n(2, false), meta(4), r(1, Ref{'w', 1})},
+			{n(1, false), meta(2), meta(1), n(2, true)},
+		} {
+			out = append(out, Scenario{"extract", d, keepAll, 1, seqBound, 1, false}, Scenario{"extract", d, keepBounds, 1, seqBound, 1, false})
+			q := append(Doc{}, d...)
+			q[len(q)-1].Tagged = true
+			out = append(out, Scenario{"extract", q, keepTags, 1, seqBound, 1, false}, Scenario{"extract", d, keepAll, 2, 1, 1, true}, Scenario{"extract", d, keepBounds, 2, 1, 1, true})
+		}
+	}
+	// relations that list themselves (or each other) among their members, with
+	// further members before and after the self reference
+	for _, d := range []Doc{
+		{n(1, false), n(2, false), w(1, 1, 2), n(3, false), r(1, Ref{'r', 1}, Ref{'w', 1}, Ref{'n', 3})},
+		{n(1, false), n(2, false), w(1, 1, 2), n(3, false), r(1, Ref{'w', 1}, Ref{'r', 1}, Ref{'n', 3})},
+		{r(1, Ref{'r', 1}, Ref{'n', 3}), n(3, false)},
+		{n(3, false), n(4, false), r(1, Ref{'r', 2}, Ref{'n', 3}), r(2, Ref{'r', 1}, Ref{'n', 4})},
+	} {
+		q := append(Doc{}, d...)
+		for t := range q {
+			if q[t].Kind == 'r' && q[t].ID == 1 {
+				q[t].Tagged = true
+			}
+		}
+		out = append(out, Scenario{"extract", q, keepTags, 1, seqBound, 1, false}, Scenario{"extract", q, keepTags, 2, 1, 1, true}, Scenario{"filter", q, keepTags, 1, 1, 1, false}, Scenario{"pbf", q, keepTags, 1, 0, 1, false}, Scenario{"extract", d, keepAll, 1, seqBound, 1, false})
 	}
 	// two wanted keys, and elements that carry both keys with only one value
 	// matching (a=x c=d, or a=b c=x), next to untagged ones
@@ -823,11 +865,20 @@ func runScenario(idx int, s Scenario, shard int) scenResult {
 	res.Outcomes, res.Violations, res.Harness, res.Capped = st.Outcomes, st.Violations, st.Harness, st.Capped
 	// conformance of the shim: the free-running package (real primitives) must
 	// produce an outcome the explorer has seen
-	if shard == 0 && s.Kind == "extract" && s.NProcs > 1 && st.Harness == "" {
+	// (not when the exploration has already found a violation: a schedule that
+	// deadlocks under the explorer deadlocks the real primitives for good)
+	if shard == 0 && s.Kind == "extract" && s.NProcs > 1 && st.Harness == "" && len(st.Violations) == 0 {
 		for _, p := range []int{1, 2, 4} {
 			runtime.GOMAXPROCS(p)
-			o, _ := extractOnce(s)
-			res.FreeRun = append(res.FreeRun, o)
+			done := make(chan string, 1)
+			go func() { o, _ := extractOnce(s); done <- o }()
+			select {
+			case o := <-done:
+				res.FreeRun = append(res.FreeRun, o)
+			case <-time.After(2 * time.Minute):
+				// (a document of a few elements takes microseconds)
+				res.FreeRun = append(res.FreeRun, fmt.Sprintf("free-running extraction with GOMAXPROCS=%d did not return within 2 minutes", p))
+			}
 		}
 	}
 	return res
@@ -977,6 +1028,19 @@ func main() {
 			rep.Violation(sig, map[string]interface{}{"scenario": s, "scenario_index": i, "document": s.Doc.String(), "xml": s.Doc.XML(), "expected": a.Expected, "observed": v.Outcome, "schedule": v.Schedule, "trace": v.Trace})
 		}
 		for _, f := range a.FreeRun {
+			if strings.HasPrefix(f, "free-running extraction with GOMAXPROCS=") {
+				// the real package hangs with another number of processors than the
+				// explored one: the result depends on GOMAXPROCS
+				rep.Violation(fmt.Sprintf("%s|%s|free-running|does-not-return", s.Kind, keepNames[s.Keep]), map[string]interface{}{"scenario": s, "scenario_index": i, "document": s.Doc.String(), "xml": s.Doc.XML(), "observed": f})
+				continue
+			}
+			if f != a.Expected && a.Outcomes[f] == 0 && len(a.Violations) == 0 {
+				// the real package, run freely with 1, 2 and 4 processors, returned
+				// something else than the least fixpoint (and than every explored
+				// outcome): a wrong result of a real run, whatever the explorer saw
+				rep.Violation(fmt.Sprintf("%s|%s|free-running|not-least-fixpoint", s.Kind, keepNames[s.Keep]), map[string]interface{}{"scenario": s, "scenario_index": i, "document": s.Doc.String(), "xml": s.Doc.XML(), "expected": a.Expected, "observed": f})
+				continue
+			}
 			if a.Outcomes[f] == 0 && len(a.Violations) == 0 {
 				report.Harness("shim conformance: free-running outcome %q of %s was never produced by the explorer (outcomes %v)", f, s, a.Outcomes)
 			}
